@@ -31,6 +31,9 @@ def run(prop, tier, seed):
     ctx = Ctx(prop, tier, seed)
     broken = []          # obligations / ties that no longer check: (kind, detail)
     notes = []
+    if ctx.changed_files:
+        notes.append("anchored sources differ from the recorded baseline (%s): quick budgets x%d"
+                     % (", ".join(ctx.changed_files), ctx.boost))
     try:
         # ---- 1. translator ---------------------------------------------------------------
         changed = []
